@@ -1,7 +1,7 @@
 """Shared machinery of the checks: building, auditing the Coq development, running the extracted
 model and the Rust harness in parallel, S-expression (de)serialisation, known findings, verdicts,
 evidence files.  Everything a check reports is measured here on the run itself."""
-import atexit, concurrent.futures, hashlib, json, os, pathlib, random, re, shutil, subprocess, sys, tempfile, time
+import atexit, concurrent.futures, hashlib, json, os, pathlib, random, re, select, shutil, subprocess, sys, tempfile, threading, time
 
 ROOT = pathlib.Path(__file__).resolve().parent.parent
 COQ = ROOT / 'coq'
@@ -20,6 +20,7 @@ EVIDENCE = ROOT / 'evidence'
 REPLAY = EVIDENCE / 'replay'
 NPROC = os.cpu_count() or 4
 GUARD = 'typeshare_verif'
+IMPL_STALL = int(os.environ.get('VERIF_IMPL_STALL', '90'))     # seconds without an answer from libdrive = the request hangs
 
 ENV = dict(os.environ, CARGO_NET_OFFLINE='true', CARGO_TERM_COLOR='never')
 
@@ -362,12 +363,66 @@ def _run_chunk(cmd, chunk, timeout, env=None, abort_answer=None):
     return res
 
 
-def run_lines(cmd, lines, timeout=1200, jobs=NPROC, abort_answer=None):
+def _run_chunk_stall(cmd, chunk, stall, abort_answer, hang_answer, env=None):
+    """like _run_chunk, but answers are read as they come: when NO answer arrives for `stall` seconds the request being
+    served does not return (the code under test spins): the process is killed, that request gets hang_answer(), and the
+    rest of the chunk goes to a fresh process.  A process that dies part-way gets abort_answer(rc) for the request that
+    killed it, as in _run_chunk."""
+    res, rest = [], list(chunk)
+    while rest:
+        p = subprocess.Popen(cmd, stdin=subprocess.PIPE, stdout=subprocess.PIPE, stderr=subprocess.DEVNULL, env=env or ENV)
+
+        def feed(proc=p, data=('\n'.join(rest) + '\n').encode()):
+            try:
+                proc.stdin.write(data)
+                proc.stdin.close()
+            except (BrokenPipeError, OSError):
+                pass
+        threading.Thread(target=feed, daemon=True).start()
+        fd, buf, got, hung = p.stdout.fileno(), b'', [], False
+        while len(got) < len(rest):
+            r, _, _ = select.select([fd], [], [], stall)
+            if not r:
+                hung = True
+                break
+            data = os.read(fd, 1 << 16)
+            if not data:
+                break
+            buf += data
+            *lines, buf = buf.split(b'\n')
+            got += [l.decode('utf-8', 'replace') for l in lines]
+        if hung:
+            p.kill()
+            p.wait()
+            res += got[:len(rest)]
+            res.append(hang_answer(stall))
+            rest = rest[len(got) + 1:]
+            continue
+        try:
+            rc = p.wait(timeout=30)
+        except subprocess.TimeoutExpired:
+            p.kill()
+            rc = p.wait()
+        if len(got) >= len(rest):
+            res += got[:len(rest)]
+            break
+        if abort_answer is None:
+            raise RuntimeError(f'{cmd[0]}: {len(got)} answers for {len(rest)} requests (rc={rc})')
+        res += got
+        res.append(abort_answer(rc))
+        rest = rest[len(got) + 1:]
+    return res
+
+
+def run_lines(cmd, lines, timeout=1200, jobs=NPROC, abort_answer=None, hang_answer=None, stall=None):
     if not lines:
         return []
     chunks = _chunks(lines, jobs)
     with concurrent.futures.ThreadPoolExecutor(max_workers=jobs) as ex:
-        outs = list(ex.map(lambda c: _run_chunk(cmd, c, timeout, abort_answer=abort_answer), chunks))
+        if hang_answer is not None:
+            outs = list(ex.map(lambda c: _run_chunk_stall(cmd, c, stall or 120, abort_answer, hang_answer), chunks))
+        else:
+            outs = list(ex.map(lambda c: _run_chunk(cmd, c, timeout, abort_answer=abort_answer), chunks))
     return [l for o in outs for l in o]
 
 
@@ -384,8 +439,9 @@ def model(lines, timeout=1200):
 
 def impl(objs, timeout=1200):
     """objs: JSON commands for libdrive (the real library built from /repo)."""
+    # a request that gets no answer for IMPL_STALL seconds is answered {"hang": seconds}: the code under test does not return
     outs = run_lines([str(LIBDRIVE)], [json.dumps(o) for o in objs], timeout,
-                     abort_answer=lambda rc: json.dumps({'abort': rc}))
+                     abort_answer=lambda rc: json.dumps({'abort': rc}), hang_answer=lambda st: json.dumps({'hang': st}), stall=IMPL_STALL)
     return [json.loads(o) for o in outs]
 
 
